@@ -43,6 +43,14 @@ CHECKS["C06"] = {
     "design_ref": "DESIGN.md 2.4, 3 (C06)",
 }
 
+CHECKS["C17"] = {
+    "engine": "H",
+    "technique": "deterministic simulation: seeded interleavings of in-place/slice/copy/deepcopy/re-insertion by holders sharing buffers vs. an object-graph reference model, rejected updates as faults, ddmin-minimised replay",
+    "text": "Seeded search over histories in which 2-3 holders interleave the four in-place operators (rhs: fresh/live Array, Vector, number, ndarray, Quantity; same/compatible/incompatible units; f8/f4/i8/i4), slicing, copy/copy.copy/copy.deepcopy of Array/Vector/Datagroup/Dataset and re-insertion into several containers. After every step every live object is compared with a model graph (buffers, views as index sets, own unit algebra): values through views, unit, dtype, object identity, container membership, np.shares_memory for every pair; x op= y also against x op y on deep copies. Sampling, not proof.",
+    "note": "Trusted: numpy arithmetic on float64 as reference arithmetic; the check's own unit table (scale to CGS + dimension exponents) compared with pint's base-unit reduction; np.shares_memory.",
+    "design_ref": "DESIGN.md 2.4, 3 (C17)",
+}
+
 PENDING_REASON = "check not built yet in this snapshot of /verif (planned and applicable, see DESIGN.md section 3); not claimed until its check exists"
 ALL = ["C%02d" % i for i in range(1, 21)]
 
